@@ -209,43 +209,47 @@ SameStruct(s, a, b) == SameG(StructT(s), a, b)
 \* Errors are reported in stream order (the first defect met wins).
 \* ---------------------------------------------------------------------------
 DBad == [st |-> "bad"]
-DOk(v, n, dup) == [st |-> "ok", v |-> v, n |-> n, dup |-> dup]
+DOk(v, n, dup, d) == [st |-> "ok", v |-> v, n |-> n, dup |-> dup, d |-> d]
 
 SignExt(w4) == (IF w4[1] >= 128 THEN <<255, 255, 255, 255>> ELSE <<0, 0, 0, 0>>) \o w4
 
 \* duplicates of a key collapse, the last one wins; NaN keys never collapse
 SameKey(tk, a, b) == IF tk.ptr THEN FALSE          \* pointer keys are distinct objects
                      ELSE IF tk.k = "double" THEN FloatEq(a, b) ELSE a = b
-Dedup(tk, ents) ==
-  SelectSeq(Mat([i \in 1..Len(ents) |-> [e |-> ents[i], i |-> i]]),
-            LAMBDA x : ~\E j \in (x.i + 1)..Len(ents) : SameKey(tk, ents[j][1], x.e[1]))
+RECURSIVE DedupAcc(_, _, _, _)
+DedupAcc(tk, ents, i, acc) ==
+  IF i > Len(ents) THEN acc
+  ELSE IF \E j \in (i + 1)..Len(ents) : SameKey(tk, ents[j][1], ents[i][1])
+       THEN DedupAcc(tk, ents, i + 1, acc)
+       ELSE DedupAcc(tk, ents, i + 1, Append(acc, ents[i]))
+Dedup(tk, ents) == DedupAcc(tk, ents, 1, <<>>)
 
-RECURSIVE DT(_, _, _, _), DV(_, _, _, _), DItems(_, _, _, _, _, _, _), DPairs(_, _, _, _, _, _, _, _),
-          DFields(_, _, _, _, _, _, _, _)
+RECURSIVE DT(_, _, _, _), DV(_, _, _, _), DItems(_, _, _, _, _, _, _, _), DPairs(_, _, _, _, _, _, _, _, _),
+          DFields(_, _, _, _, _, _, _, _, _)
 
-DItems(te, b, i, n, acc, used, dup) ==
-  IF n = 0 THEN DOk(acc, used, dup)
+DItems(te, b, i, n, acc, used, dup, md) ==
+  IF n = 0 THEN DOk(acc, used, dup, md)
   ELSE LET r == DT(te, b, i, ZeroOf(te)) IN
        IF r.st # "ok" THEN r
-       ELSE DItems(te, b, i + r.n, n - 1, Append(acc, r.v), used + r.n, dup \/ r.dup)
+       ELSE DItems(te, b, i + r.n, n - 1, Append(acc, r.v), used + r.n, dup \/ r.dup, MaxI(md, r.d))
 
-DPairs(tk, tv, b, i, n, acc, used, dup) ==
-  IF n = 0 THEN DOk(acc, used, dup)
+DPairs(tk, tv, b, i, n, acc, used, dup, md) ==
+  IF n = 0 THEN DOk(acc, used, dup, md)
   ELSE LET rk == DT(tk, b, i, ZeroOf(tk)) IN
        IF rk.st # "ok" THEN rk
        ELSE LET rv == DT(tv, b, i + rk.n, ZeroOf(tv)) IN
             IF rv.st # "ok" THEN rv
             ELSE DPairs(tk, tv, b, i + rk.n + rv.n, n - 1, Append(acc, <<rk.v, rv.v>>),
-                        used + rk.n + rv.n, dup \/ rk.dup \/ rv.dup)
+                        used + rk.n + rv.n, dup \/ rk.dup \/ rv.dup, MaxI(md, MaxI(rk.d, rv.d)))
 
 \* cur: the struct value being filled, seen: keys with a well-typed occurrence so far
-DFields(s, b, i, cur, seen, unk, used, dup) ==
+DFields(s, b, i, cur, seen, unk, used, dup, md) ==
   IF Remain(b, i) < 1 THEN DBad
   ELSE IF b[i] = TSTOP THEN
        LET ff == FieldsOf(s)
            miss == {j \in RequiredOf(s) : ff[j].key \notin seen} IN
        IF miss # {} THEN [st |-> "missing", names |-> {ff[j].name : j \in miss}]
-       ELSE DOk(IF HasUnk(s) /\ Len(unk) > 0 THEN [cur EXCEPT !.unk = unk] ELSE cur, used + 1, dup)
+       ELSE DOk(IF HasUnk(s) /\ Len(unk) > 0 THEN [cur EXCEPT !.unk = unk] ELSE cur, used + 1, dup, md + 1)
   ELSE IF Remain(b, i) < 3 THEN DBad
   ELSE LET j == FieldIdx(s, U16(b, i + 1)) IN
        IF j # 0 /\ WT(FieldsOf(s)[j].t) = b[i] THEN
@@ -253,40 +257,40 @@ DFields(s, b, i, cur, seen, unk, used, dup) ==
                 r == DT(f.t, b, i + 3, cur.f[f.key]) IN
             IF r.st # "ok" THEN r
             ELSE DFields(s, b, i + 3 + r.n, [cur EXCEPT !.f[f.key] = r.v], seen \cup {f.key}, unk,
-                         used + 3 + r.n, dup \/ r.dup \/ f.key \in seen)
-       ELSE LET r == Skip(b[i], b, i + 3, 100000) IN
-            IF r < 0 THEN DBad
-            ELSE DFields(s, b, i + 3 + r, cur, seen, unk \o Sub(b, i, 3 + r), used + 3 + r, dup)
+                         used + 3 + r.n, dup \/ r.dup \/ f.key \in seen, MaxI(md, r.d))
+       ELSE LET r == SkipD(b[i], b, i + 3, 100000) IN
+            IF r[1] < 0 THEN DBad
+            ELSE DFields(s, b, i + 3 + r[1], cur, seen, unk \o Sub(b, i, 3 + r[1]), used + 3 + r[1], dup,
+                         MaxI(md, r[2]))
 
 \* non-pointer value of type t at b[i]; prior = what the destination held
 DV(t, b, i, prior) ==
   LET k == t.k IN
   IF k \in FixedKinds THEN
        IF Remain(b, i) < WireW(k) THEN DBad
-       ELSE DOk(IF k = "enum" THEN SignExt(Sub(b, i, 4)) ELSE Sub(b, i, WireW(k)), WireW(k), FALSE)
+       ELSE DOk(IF k = "enum" THEN SignExt(Sub(b, i, 4)) ELSE Sub(b, i, WireW(k)), WireW(k), FALSE, 0)
   ELSE IF k \in {"string", "binary"} THEN
        LET r == SkipStr(b, i) IN
        IF r < 0 THEN DBad
        ELSE DOk(IF k = "string" THEN Sub(b, i + 4, r - 4) ELSE [nil |-> FALSE, b |-> Sub(b, i + 4, r - 4)],
-                r, FALSE)
+                r, FALSE, 0)
   ELSE IF k \in ListKinds THEN
        IF Remain(b, i) < 5 THEN DBad
        ELSE LET n == S32(b, i + 1) IN
             IF n < 0 \/ b[i] # WT(t.e) THEN DBad
             ELSE IF n > (Remain(b, i) - 5) \div MinWire(WT(t.e)) THEN DBad
-            ELSE LET r == DItems(t.e, b, i + 5, n, <<>>, 5, FALSE) IN
-                 IF r.st # "ok" THEN r ELSE [r EXCEPT !.v = [nil |-> FALSE, items |-> r.v]]
+            ELSE LET r == DItems(t.e, b, i + 5, n, <<>>, 5, FALSE, 0) IN
+                 IF r.st # "ok" THEN r ELSE [r EXCEPT !.v = [nil |-> FALSE, items |-> r.v], !.d = r.d + 1]
   ELSE IF k = "map" THEN
        IF Remain(b, i) < 6 THEN DBad
        ELSE LET n == S32(b, i + 2) IN
             IF n < 0 \/ b[i] # WT(t.kt) \/ b[i + 1] # WT(t.vt) THEN DBad
             ELSE IF n > (Remain(b, i) - 6) \div (MinWire(WT(t.kt)) + MinWire(WT(t.vt))) THEN DBad
-            ELSE LET r == DPairs(t.kt, t.vt, b, i + 6, n, <<>>, 6, FALSE) IN
+            ELSE LET r == DPairs(t.kt, t.vt, b, i + 6, n, <<>>, 6, FALSE, 0) IN
                  IF r.st # "ok" THEN r
-                 ELSE LET d == Dedup(t.kt, r.v) IN
-                      [r EXCEPT !.v = [nil |-> FALSE, ents |-> Mat([x \in 1..Len(d) |-> d[x].e])]]
+                 ELSE [r EXCEPT !.v = [nil |-> FALSE, ents |-> Dedup(t.kt, r.v)], !.d = r.d + 1]
   ELSE \* nested struct: declared defaults first, then the fields of the message
-       DFields(t.s, b, i, IF HasInit(t.s) THEN DefaultStruct(t.s) ELSE prior, {}, <<>>, 0, FALSE)
+       DFields(t.s, b, i, IF HasInit(t.s) THEN DefaultStruct(t.s) ELSE prior, {}, <<>>, 0, FALSE, 0)
 
 DT(t, b, i, prior) ==
   IF t.ptr THEN
@@ -295,10 +299,11 @@ DT(t, b, i, prior) ==
   ELSE DV(t, b, i, prior)
 
 \* top level: the destination is never re-initialised
-Dec(s, b, dest) == DFields(s, b, 1, dest, {}, <<>>, 0, FALSE)
+\* the result's d is the nesting depth of the message (the top-level struct counts 1)
+Dec(s, b, dest) == DFields(s, b, 1, dest, {}, <<>>, 0, FALSE, 0)
 
-\* nesting depth of the message that Dec accepted (Depth of the top-level struct)
-MsgDepth(b) == Depth(TSTRUCT, b, 1)
+\* nesting depth of a generically well-formed message
+MsgDepth(b) == SkipD(TSTRUCT, b, 1, 100000)[2]
 
 \* ---------------------------------------------------------------------------
 \* Normal form of a value after encode + decode into a fresh, default-initialised
